@@ -6,11 +6,15 @@
    every variant (the tree structure does not depend on the cut search).
    Rib = the same function applied to the rotated points recorded by the hook. *)
 From Coupe Require Import Lib.Prelude Lib.SFloat Model.Rcb Gen.RcbGen
-  Proofs.SFOrder Proofs.RcbProofs Proofs.RcbInst Proofs.RcbTotal Proofs.F32Rank Proofs.F32Flocq Proofs.RcbBox Proofs.RcbTotalInst Proofs.RcbSched Proofs.RcbSchedInst.
+  Proofs.SFOrder Proofs.RcbProofs Proofs.RcbInst Proofs.RcbTotal Proofs.F32Rank Proofs.F32Flocq Proofs.RcbBox Proofs.RcbTotalInst Proofs.RcbTotalInf Proofs.RcbTotalInfInst Proofs.RcbSched Proofs.RcbSchedInst.
 From Coq Require Import Floats.SpecFloat Permutation.
 Open Scope Z_scope.
 
-Definition rcb_variant : variant := mkvariant rcb_old_rules rcb_by_coord rcb_probe_max rcb_safe_mid.
+Definition rcb_variant : variant := mkvariant rcb_old_rules rcb_by_coord rcb_probe_max rcb_safe_mid rcb_clamp_cast.
+(* the binary32 coordinates of the current source: images under its cast
+   (clamped to [f32::MIN, f32::MAX] when rcb_clamp_cast, plain `as f32` otherwise;
+   both are [to32] on coordinates whose image is finite) *)
+Definition to32i := to32c rcb_clamp_cast.
 Definition rcb_impl := rcb rcb_variant.
 
 (* For every tolerance, fuel, split-tree schedule and initial array: if the
@@ -21,7 +25,7 @@ Theorem C03_rcb_bisect_tree : forall fuel sched D k tol pts ws p0 p,
   coords_ok pts ->
   rcb_impl fuel sched D k tol pts ws p0 = Ok p ->
   length p = length pts
-  /\ (exists t, Permutation t (combine (to32 pts) p) /\ BisectTree spec_float flt D k 0%nat t)
+  /\ (exists t, Permutation t (combine (to32i pts) p) /\ BisectTree spec_float flt D k 0%nat t)
   /\ (pts <> [] -> Forall (fun i => (i < 2 ^ N.of_nat k)%N) p).
 Proof. exact (rcb_bisect_tree rcb_variant). Qed.
 Print Assumptions C03_rcb_bisect_tree.
@@ -32,7 +36,7 @@ Theorem C03_rcb_bisect_tree_any_search : forall v fuel sched D k tol pts ws p0 p
   coords_ok pts ->
   rcb v fuel sched D k tol pts ws p0 = Ok p ->
   length p = length pts
-  /\ (exists t, Permutation t (combine (to32 pts) p) /\ BisectTree spec_float flt D k 0%nat t)
+  /\ (exists t, Permutation t (combine (to32c (v_clamp v) pts) p) /\ BisectTree spec_float flt D k 0%nat t)
   /\ (pts <> [] -> Forall (fun i => (i < 2 ^ N.of_nat k)%N) p).
 Proof. exact rcb_bisect_tree. Qed.
 Print Assumptions C03_rcb_bisect_tree_any_search.
@@ -85,7 +89,7 @@ Print Assumptions C03_reorder_split_scalar_spec.
 Theorem C03_checker_sound : forall D k pts ids,
   check_bisect32 D k pts ids = true ->
   length pts = length ids /\ Forall (fun i => (i < 2 ^ N.of_nat k)%N) ids
-  /\ exists t, Permutation t (combine (to32 pts) ids) /\ BisectTree spec_float flt D k 0%nat t.
+  /\ exists t, Permutation t (combine (to32c true pts) ids) /\ BisectTree spec_float flt D k 0%nat t.
 Proof. exact check_bisect32_sound. Qed.
 Print Assumptions C03_checker_sound.
 
@@ -152,6 +156,54 @@ Theorem C03_rcb_total : forall fuel sched D k tol pts ws p0,
 Proof. exact (fun fuel sched D k tol pts ws p0 => rcb_total32_contract rcb_variant fuel sched D k tol pts ws p0 eq_refl eq_refl). Qed.
 Print Assumptions C03_rcb_total.
 
+(* The whole usage contract "finite coordinates": EVERY finite f64 coordinate
+   set, including values beyond the binary32 range.  No panic, no OutOfFuel,
+   Ok with one id per point and every id below 2^iter_count, for every
+   schedule and tolerance, WHICHEVER cast the source uses:
+   - clamped cast (the current source): every image is a finite canonical
+     binary32 value (cast_true_real), so the argument of C03_rcb_total applies;
+   - plain `as f32` (before the clamp fix; images may be +-inf, never NaN):
+     `min/2 + max/2` is +-inf or NaN when a bound is infinite; then
+     `min < middle < max` fails, the interval counts as exhausted and the search
+     returns after its last probe at max; the loop continues only with a
+     canonical non-NaN midpoint strictly between the bounds, and the rank
+     distance (rank32i: rank32 with +-(2^32+1) for the infinities) decreases;
+     the cut positions handed to the children are max or such a midpoint,
+     never NaN; `split_pos as f64` is exact for +-inf too.
+   Uses the Flocq links (real-number axioms of the standard library). *)
+Theorem C03_rcb_total_finite_f64 : forall fuel sched D k tol pts ws p0,
+  (0 < D)%nat -> length ws = length p0 -> length pts = length p0 ->
+  Forall (fun p => length p = D) pts -> coords_finite_f64 pts ->
+  Z.of_nat fuel > 2 ^ 34 ->
+  exists p, rcb_impl fuel sched D k tol pts ws p0 = Ok p
+            /\ length p = length pts /\ Forall (fun i => (i < 2 ^ N.of_nat k)%N) p.
+Proof. exact (fun fuel sched D k tol pts ws p0 => rcb_total_finite_f64_ids rcb_variant fuel sched D k tol pts ws p0 eq_refl eq_refl eq_refl). Qed.
+Print Assumptions C03_rcb_total_finite_f64.
+
+(* the tree structure on the same contract.  Strictness with infinite images:
+   the two sides of a node are {x < pivot} / {not x < pivot} (or everything /
+   nothing), so every point whose image is +inf lies on the high side of every
+   node that separates on that axis and two +inf images are never separated:
+   `every low point strictly below every high point` holds as stated (flt is a
+   strict weak order on all non-NaN values, infinities included). *)
+Theorem C03_rcb_bisect_tree_finite_f64 : forall fuel sched D k tol pts ws p0 p,
+  coords_finite_f64 pts ->
+  rcb_impl fuel sched D k tol pts ws p0 = Ok p ->
+  length p = length pts
+  /\ (exists t, Permutation t (combine (to32i pts) p) /\ BisectTree spec_float flt D k 0%nat t)
+  /\ (pts <> [] -> Forall (fun i => (i < 2 ^ N.of_nat k)%N) p).
+Proof. exact (fun fuel sched D k tol pts ws p0 p Hf => rcb_bisect_tree rcb_variant fuel sched D k tol pts ws p0 p (finite_coords_ok pts Hf)). Qed.
+Print Assumptions C03_rcb_bisect_tree_finite_f64.
+
+(* non-vacuity: coordinates beyond the binary32 range on both sides of the same
+   axis; the model returns Ok and the checker accepts the tree *)
+Example C03_finite_f64_nonvacuous :
+  let pts := map (fun x => [f64_of_Z x; f64_of_Z 0]) [- 10 ^ 39; 0; 1; 2; 3; 10 ^ 39; 10 ^ 39] in
+  coords_finite_f64 pts
+  /\ exists p, rcb_impl 400 seq_sched 2 2 (f64_of_bits 4587366580439587226%N) pts [1;1;1;1;1;1;1] [9;9;9;9;9;9;9]%N = Ok p
+               /\ check_bisect32 2 2 pts p = true.
+Proof. split; [repeat constructor|eexists; split; vm_compute; reflexivity]. Qed.
+
 (* on the narrow contract the root box of the model (per axis the f64 min / max
    found with `<` from (f64::MAX, f64::MIN), then cast `as f32`) has finite
    canonical binary32 bounds that enclose every binary32 coordinate *)
@@ -159,6 +211,13 @@ Theorem C03_box_ok32_holds : forall D pts ws, pts <> [] -> length pts = length w
   Forall (fun p => length p = D) pts -> coords_in_f32_range pts -> box_ok32 D pts ws = true.
 Proof. exact box_ok32_holds. Qed.
 Print Assumptions C03_box_ok32_holds.
+
+(* with the clamped cast: for every finite f64 coordinate set (canonical
+   binary64 values); the clamped cast is monotone and its images are finite *)
+Theorem C03_box_ok32_clamped_holds : forall D pts ws, length pts = length ws ->
+  Forall (fun p => length p = D) pts -> coords_finite_valid64 pts -> box_ok32c true D pts ws = true.
+Proof. exact box_ok32c_true_holds. Qed.
+Print Assumptions C03_box_ok32_clamped_holds.
 
 (* the rank hypotheses are satisfiable: integers in [0, 1000] with the integer midpoint *)
 Example C03_rank_hypotheses_satisfiable :
